@@ -1,3 +1,5 @@
 import MiniMcmcVerif.Model.Util
 import MiniMcmcVerif.Model.Run
 import MiniMcmcVerif.Props.C09
+import MiniMcmcVerif.Model.Gibbs
+import MiniMcmcVerif.Props.C05
